@@ -68,6 +68,9 @@ def Genesis.base (g : Genesis) : State :=
   { time := g.time, params := g.params, keyed := g.keyed, planCount := some 0, sessCount := some 0,
     mintMax := 200000000000000000, mintMin := 70000000000000000, mintRate := 130000000000000000,
     minterInfl := 130000000000000000,
+    -- InitGenesis writes every parameter (`SetParams`), which marks all four price-bound keys as modified in
+    -- the params transient store; genesis and block 1 share one commit, so the first EndBlock runs the sweep
+    modified := { maxGB := true, minGB := true, maxHr := true, minHr := true },
     inflations := g.inflations.foldl (fun t i => t.set i.ts i) [] }
 
 def Genesis.state (g : Genesis) : State := g.balances.foldl addBalance g.base
